@@ -79,7 +79,14 @@ func genDerivedText(g *tgen, base string) string {
 	b.WriteString("{{extends \"" + base + "\"}}")
 	for _, bn := range append(blockNames, "zz") {
 		if g.r.chance(45) {
-			b.WriteString("\n{{#block \"" + bn + "\"}}O" + bn + flatText(g) + "{{/block}}")
+			body := "O" + bn + flatText(g)
+			switch g.r.intn(8) {
+			case 0:
+				body = "" // the override blanks the block out
+			case 1:
+				body = " "
+			}
+			b.WriteString("\n{{#block \"" + bn + "\"}}" + body + "{{/block}}")
 		}
 	}
 	return b.String()
